@@ -389,11 +389,11 @@ def spec_compare(line, raw, tb, ev, partial, tk_index):
 
 # ------------------------------------------------------------------------------------- running the tools
 
-def run_bin(bindir, name, args, texts, timeout=900):
+def run_bin(bindir, name, args, texts, timeout=400):
     return synlib.run_json_robust(os.path.join(bindir, name), args, texts, timeout)
 
 
-def run_model(exe, cmd, lines, timeout=900):
+def run_model(exe, cmd, lines, timeout=400):
     """lines: already formatted input lines; deep recursion of the extracted code needs an unlimited stack"""
     if not lines:
         return []
@@ -440,8 +440,15 @@ def examine(bindir, exe, tab, texts, parse=True, meta=False, spec=True):
     tbs = [t.encode("utf-8") for t in texts]
     lex = run_bin(bindir, "lexdump", [], texts)
     prep = run_bin(bindir, "prepdump", [], texts)
-    par = run_bin(bindir, "parsedump", ["--flat"], texts) if parse else [None] * len(texts)
     mod = run_model(exe, "prepm", [treeio.text_line(t) for t in texts])
+    # reference evaluation first: syntax::parse is observed on every text the property speaks about (classes
+    # i-iii); on class iv (stray #else/#endif) nothing is demanded, so nothing is parsed
+    evs = [ref_eval([x for x in l["tokens"] if x[0] != "Eof"], tb) if "tokens" in l else None for l, tb in zip(lex, tbs)]
+    par = [None] * len(texts)
+    if parse:
+        sub = [k for k, e in enumerate(evs) if e is not None and e["cls"] != "iv"]
+        for k, o in zip(sub, run_bin(bindir, "parsedump", ["--flat"], [texts[k] for k in sub]) if sub else []):
+            par[k] = o
     res = []
     spec_lines, spec_idx = [], []
     meta_texts, meta_idx = [], []
@@ -456,7 +463,7 @@ def examine(bindir, exe, tab, texts, parse=True, meta=False, spec=True):
             continue
         raw = [x for x in lex[k]["tokens"] if x[0] != "Eof"]
         r["raw"] = raw
-        ev = ref_eval(raw, tbs[k])
+        ev = evs[k]
         r["ev"], r["cls"] = ev, ev["cls"]
         r["fails"] = judge(tbs[k], raw, ev, prep[k], par[k], tab.tk2sk, tab.sk_triv)
         rl, rm = real_stream_line(prep[k], tab.tk_index)
